@@ -5,7 +5,7 @@ import os
 
 VERIF = os.path.dirname(os.path.dirname(os.path.abspath(__file__)))
 
-HOOK_COMMITS = ["bc605e4", "0c3cdcb"]
+HOOK_COMMITS = ["bc605e4", "0c3cdcb", "e55cdba"]
 
 CHECKS = {
     "C10": dict(
